@@ -455,7 +455,9 @@ pub fn tagged_publish(tag: usize, qos: u8) -> PublishSpec {
     PublishSpec {
         qos: Some(qos),
         topic: Some(format!("t/{tag}")),
-        payload: Some(format!("p{tag}").into_bytes()),
+        // every fourth publish is ~50 bytes long: under a small server Maximum Packet Size
+        // (18..42 in the histories) it is refused locally, the others are not
+        payload: Some(if tag % 4 == 3 { format!("p{tag}{}", ".".repeat(36)) } else { format!("p{tag}") }.into_bytes()),
         ..Default::default()
     }
 }
